@@ -313,13 +313,14 @@ one (it dropped the answer in between): the id comparison of `semantic_tokens_fu
 theorem c14_token_delta_needs_same_base :
     Spec.applyTokEdits [1, 2] (Impl.deltaEdits [1, 3] [1, 3, 4]) ≠ [1, 3, 4] := by decide
 
-/-- **The analysed text of a URI is the text of that URI's document — as long as no two URIs in
-use share a source key (guarded form; known finding C14-uri-scheme-shares-path-key).**  The
-project stores sources under `source_key_for_uri(uri)`, the documents are stored under the URI.
-If the key function is injective, then after every workspace history whatsoever the database
-entry of each URI's key is exactly the `analysed` field the per-URI model (`Impl.wstep`, the
-model of `c14_workspace_history`) carries for that URI, and the documents are those of the per-URI
-model — so `c14_workspace_history` speaks about what the analysis really reads. -/
+/-- **The analysed text of a URI is the text of that URI's document — for every key function that
+gives no two URIs in use the same source key** (general form; `c14_keyed_analysed` discharges the
+guard for the server's `source_key_for_uri`).  The project stores sources under
+`source_key_for_uri(uri)`, the documents are stored under the URI.  If the key function is
+injective, then after every workspace history whatsoever the database entry of each URI's key is
+exactly the `analysed` field the per-URI model (`Impl.wstep`, the model of
+`c14_workspace_history`) carries for that URI, and the documents are those of the per-URI model —
+so `c14_workspace_history` speaks about what the analysis really reads. -/
 theorem c14_keyed_analysed_partial (key : Nat → Nat) (hk : ∀ a b, key a = key b → a = b)
     (evs : List Impl.WEvent) :
     (Impl.krun key Impl.kInit evs).docs = Impl.wrun (fun _ => none) evs ∧
@@ -327,16 +328,41 @@ theorem c14_keyed_analysed_partial (key : Nat → Nat) (hk : ∀ a b, key a = ke
       ((Impl.krun key Impl.kInit evs).docs u).map (·.analysed) :=
   ⟨krun_docs key evs Impl.kInit, krun_inv key hk evs Impl.kInit (fun _ => rfl)⟩
 
-/-- **The guard is necessary (known finding C14-uri-scheme-shares-path-key).**  `uri_to_path`
-ignores the scheme, the query and the fragment, so `file:///w/main.st` (URI 0) and
-`git:/w/main.st?ref=HEAD` (URI 1) have the same key: after both are opened, each document holds
-its own text but the analysis reads the second text for both — every answer about URI 0 is
-computed from a text the editor does not hold for it. -/
+/-- **`source_key_for_uri` gives different URIs different keys** (the repaired defect
+C14-uri-scheme-shares-path-key): a plain `file:` URI is keyed by its path, every other URI — another
+scheme, a query, a fragment — by the whole URI, and the two kinds of key are different
+constructors. -/
+theorem c14_source_key_injective (a b : Impl.Uri) (h : Impl.sourceKey a = Impl.sourceKey b) :
+    a = b :=
+  sourceKey_injective a b h
+
+/-- **The analysed text of a URI is the text of that URI's document (no guard left).**  For every
+numbering of distinct URIs (`uri` injective) and every numbering of source keys (`code` injective)
+the key function `code ∘ source_key_for_uri ∘ uri` satisfies the guard of
+`c14_keyed_analysed_partial`: after every workspace history the analysis reads, for every URI,
+the `analysed` text of that URI's own document. -/
+theorem c14_keyed_analysed (uri : Nat → Impl.Uri) (code : Impl.SourceKey → Nat)
+    (huri : ∀ a b, uri a = uri b → a = b) (hcode : ∀ a b, code a = code b → a = b)
+    (evs : List Impl.WEvent) :
+    let key := fun u => code (Impl.sourceKey (uri u))
+    (Impl.krun key Impl.kInit evs).docs = Impl.wrun (fun _ => none) evs ∧
+    ∀ u, (Impl.krun key Impl.kInit evs).db (key u) =
+      ((Impl.krun key Impl.kInit evs).docs u).map (·.analysed) :=
+  c14_keyed_analysed_partial _
+    (fun a b h => huri a b (sourceKey_injective _ _ (hcode _ _ h))) evs
+
+/-- **Why the key function must be injective, and what the defect was.**  With one key for two
+URIs, after both are opened each document holds its own text but the analysis reads the second
+text for both; and the key function before the repair (`sourceKeyOld`: the path alone) did give
+`file:///w/main.st` and `git:/w/main.st?ref=HEAD` one key, which the repaired one does not. -/
 theorem c14_counterexample_shared_key :
-    let st := Impl.krun (fun _ => 0) Impl.kInit
+    (let st := Impl.krun (fun _ => 0) Impl.kInit
       [.doc 0 (.didOpen 1 ['a']), .doc 1 (.didOpen 1 ['b'])]
     (st.docs 0).map (·.text) = some ['a'] ∧ (st.docs 1).map (·.text) = some ['b'] ∧
-    st.db 0 = some ['b'] := by decide
+    st.db 0 = some ['b']) ∧
+    (let f : Impl.Uri := { scheme := "file", path := "/w/main.st", query := none, fragment := none }
+     let g : Impl.Uri := { scheme := "git", path := "/w/main.st", query := some "ref=HEAD", fragment := none }
+     Impl.sourceKeyOld f = Impl.sourceKeyOld g ∧ Impl.sourceKey f ≠ Impl.sourceKey g) := by decide
 
 /-- Non-vacuity of `c14_token_session`: the editor takes a full answer, drops a delta answer (the
 server's newest result is now one the editor never saw), asks again naming the OLD id while the
